@@ -211,7 +211,9 @@ def run(chk, prog, tier):
     c03.check_restamp(chk, prog)
     extent_common.check_scan_extent(chk, prog)
     c16.check_stale_count(chk, prog)
+    c16.check_stale_counted(chk, prog)
     c14.check_siblings(chk, prog)
+    c14.check_container_indexed(chk, prog)
     check_cutoff_pure(chk, prog)
     check_ruleset_siblings(chk, prog)
     # serial and parallel index construction / rebuild scans consume every batch alike
